@@ -36,8 +36,8 @@ Ltac fin Ev El :=
   rewrite ?zero32_eq, ?Ev, ?El, <- ?app_assoc; reflexivity.
 
 (* C05 (BIP143): the preimage for a given script code; the memo [m] is arbitrary *)
-Lemma bip143_eq_spec t ct sp idx redeem wscript s code cb ht m :
-  standard_hash_type ht = true -> abs_tx t = Ok ct ->
+Lemma bip143_eq_spec_any t ct sp idx redeem wscript s code cb ht m :
+  in_u32 ht = true -> abs_tx t = Ok ct ->
   nth_error sp idx = Some s -> in_u64 (sp_value s) = true ->
   bip143_script_code redeem wscript (Some (sp_script s)) = Ok code -> abs_script code = Ok cb ->
   rsnd (bip143_preimage hash256 t sp idx redeem wscript ht m) =
@@ -55,10 +55,10 @@ Proof.
   change (Bip143.is_anyonecanpay ht) with (ht_acp ht).
   change (Bip143.is_single ht) with (Legacy.hash_single ht).
   change (Bip143.is_none ht) with (Legacy.hash_none ht).
-  rewrite (std_none_or_single _ Hht), (std_single _ Hht).
+  rewrite (base5_none_or_single ht), (base5_single ht).
   rewrite Hs. cbn [option_map]. rewrite Hcode. cbn [bind].
   rewrite (abs_script_ser _ _ Hcb), (le64_ok _ Hval), (le32_ok _ Hpi), (le32_ok _ Hsq),
-    (le32_ok _ Hlt), (le32_ok _ (std_u32 _ Hht)).
+    (le32_ok _ Hlt), (le32_ok _ Hht).
   (* hashPrevouts *)
   destruct (ht_acp ht) eqn:Eacp; cbn [negb andb bind].
   - (* ANYONECANPAY: both zero *)
@@ -93,5 +93,13 @@ Proof.
     + destruct (hash_sequence_run t ct m1 Hin) as [m2 Hm2]. rewrite Hm2. cbn [bind].
       destruct (hash_outputs_run t ct m2 Hout) as [m3 Hm3]. rewrite Hm3. fin Ev El.
 Qed.
+
+Lemma bip143_eq_spec t ct sp idx redeem wscript s code cb ht m :
+  standard_hash_type ht = true -> abs_tx t = Ok ct ->
+  nth_error sp idx = Some s -> in_u64 (sp_value s) = true ->
+  bip143_script_code redeem wscript (Some (sp_script s)) = Ok code -> abs_script code = Ok cb ->
+  rsnd (bip143_preimage hash256 t sp idx redeem wscript ht m) =
+  opt_res (Bip143.preimage hash256 cb (sp_value s) ct idx ht).
+Proof. intros Hht. exact (bip143_eq_spec_any t ct sp idx redeem wscript s code cb ht m (std_u32 _ Hht)). Qed.
 
 End S.
